@@ -895,12 +895,14 @@ fn body(class: &str, rng: &mut Rng) -> Vec<u8> {
             v
         }
         "crlf" => format!("#let   z =  3\r\nText {} here.\r\n", m).into_bytes(),
+        // differs from its formatted form only in line terminators
+        "formatted-crlf" => format!("#let {} = 1\r\n\r\nText {} here.\r\n", m.to_lowercase(), m).into_bytes(),
         "empty" => vec![],
         _ => format!("plain {} content   with   spaces\n", m).into_bytes(),
     }
 }
 
-const CLASSES: [&str; 10] = ["formatted", "unformatted", "unformatted", "erroneous", "invalid-utf8", "unreadable", "unwritable", "crlf", "empty", "formatted-nofinalnl-unformatted"];
+const CLASSES: [&str; 12] = ["formatted", "unformatted", "unformatted", "erroneous", "invalid-utf8", "unreadable", "unwritable", "crlf", "empty", "formatted-nofinalnl-unformatted", "formatted-crlf", "formatted-nofinalnl-unformatted"];
 
 fn style_args(rng: &mut Rng) -> Vec<String> {
     let mut v = vec![];
@@ -951,12 +953,24 @@ pub fn gen_tree(rng: &mut Rng) -> Vec<FileSpec> {
         let class = *rng.pick(&CLASSES);
         files.push(file_spec(&rel, class, rng));
     }
-    // a symlink to a file and a directory named like a file
-    if rng.chance(1, 3) {
-        if let Some(t) = files.iter().find(|f| f.rel.ends_with(".typ") && !f.rel.contains('/')).map(|f| f.rel.clone()) {
-            if used.insert("link.typ".into()) {
-                files.push(FileSpec { rel: "link.typ".into(), kind: Kind::Symlink(t), content: vec![], mode: 0o777, class: "symlink".into() });
+    // symlinks named *.typ: to an eligible file, and to files that are NOT eligible themselves
+    // (hidden, non-.typ, in a hidden directory, outside the sub-directory that format-all is pointed at)
+    if rng.chance(1, 2) {
+        let n_links = 1 + rng.below(2);
+        for li in 0..n_links {
+            let regular: Vec<String> = files.iter().filter(|f| f.kind == Kind::File && !f.rel.starts_with("locked")).map(|f| f.rel.clone()).collect();
+            if regular.is_empty() {
+                break;
             }
+            let target = regular[rng.below(regular.len())].clone();
+            let link_dir = *rng.pick(&["", "sub", "other", "sub/deep", "docs.d"]);
+            let link_rel = if link_dir.is_empty() { format!("link{}.typ", li) } else { format!("{}/link{}.typ", link_dir, li) };
+            if !used.insert(link_rel.clone()) {
+                continue;
+            }
+            let ups = link_rel.matches('/').count();
+            let rel_target = format!("{}{}", "../".repeat(ups), target);
+            files.push(FileSpec { rel: link_rel, kind: Kind::Symlink(rel_target), content: vec![], mode: 0o777, class: "symlink".into() });
         }
     }
     if rng.chance(1, 4) && used.insert("dir.typ".into()) {
@@ -1022,7 +1036,7 @@ pub fn gen_step(files: &[FileSpec], prop: &str, rng: &mut Rng) -> Step {
             if !style_first {
                 args.extend(style.clone());
             }
-            let text = String::from_utf8_lossy(&body(*rng.pick(&["formatted", "unformatted", "erroneous", "crlf", "empty", "formatted-nofinalnl-unformatted"]), rng)).to_string();
+            let text = String::from_utf8_lossy(&body(*rng.pick(&["formatted", "unformatted", "erroneous", "crlf", "empty", "formatted-nofinalnl-unformatted", "formatted-crlf"]), rng)).to_string();
             Step { args, stdin: Some(text), cwd }
         }
         2 | 3 => {
@@ -1342,10 +1356,18 @@ pub fn run(prop: &str, tier: Tier) -> (RunMeta, Acc) {
             cases.push(crate::engine::Case::new("no final newline #let   x=1", "no-final-newline"));
             cases.push(crate::engine::Case::new("#let   x=1\r\n#let y  = 2\r\n", "crlf"));
             cases.push(crate::engine::Case::new("", "empty"));
+            // erroneous sources (printed verbatim) whose last line has no newline and straddles stdio buffer sizes
+            let mut n_special = 4;
+            for len in [1000usize, 1023, 1024, 1025, 4095, 4096, 8191, 8192, 8193, 70_000] {
+                let tail = "1, ".repeat(len / 3 + 1);
+                cases.push(crate::engine::Case::new(format!("= Title\n#let x = ({}", &tail[..len]), format!("erroneous, unterminated last line of {} bytes", len)));
+                cases.push(crate::engine::Case::new(format!("#f(\"{}", "x".repeat(len)), format!("erroneous single line of {} bytes", len)));
+                n_special += 2;
+            }
             let n = if tier == Tier::Quick { 260 } else { 4000 };
             let mut idx: Vec<usize> = (0..cases.len()).collect();
             rng.shuffle(&mut idx);
-            let specials = cases.len() - 4;
+            let specials = cases.len() - n_special;
             let mut sel: Vec<(usize, u64)> = (specials..cases.len()).map(|i| (i, rng.next())).collect();
             for k in 0..n {
                 sel.push((idx[k % idx.len()], rng.next()));
